@@ -16,6 +16,25 @@ CHECKS = {
              'pace of output relative to raw reads are judged against ground truth. Sampled streams, enumerated crash points.',
         note='Trusted: libwayland printer model, chatter templates that cannot match the message grammar, Python text I/O; stdout block buffering below stream.Std is outside the seam.',
         technique=TECH + '; truncation/interrupt points enumerated per sampled stream'),
+    'C02': dict(level='exploration', ref='4 C02',
+        text='Seeded well-formed histories from simulated client/server endpoints that allocate ids as libwayland does (LIFO reuse of client ids only '
+             'after delete_id, free reuse of server-range ids, registry binds of known/unknown interfaces, objects created by requests and events) are '
+             'run through the real tool; after every message the target, every object / new-id argument and the delete_id subject the tool attributes '
+             '(Connection.messages() objects and the type@id+letters tokens on output lines) are compared with ground truth; identity/bijection of objects at end of run.',
+        note='Trusted: wl_map id-allocation model, printer model, independent XML reader. Sampling of histories, not proof; no transport faults because the quantifier is well-formed histories.',
+        technique=TECH),
+    'C03': dict(level='exploration', ref='4 C03',
+        text='Same simulated world with the simulator clock supplying timestamps; after every message the alive flag of every reachable object is compared with the '
+             'ground-truth lifetime (delete_id for client ids, silent death on re-use for server-range ids), no resurrection, at most one live object per id, '
+             'destruction annotations present exactly on delete_id lines naming the right incarnation with lifespan = destroy - create within print precision.',
+        note='Trusted: as C02 plus the simulated clock; lifespans compared at 0.5e-4 s tolerance.',
+        technique=TECH),
+    'C04': dict(level='exploration', ref='4 C04',
+        text='k independent per-connection histories (content fixed by (seed, index)) are merged by the seeded scheduler into one stream (2-6, sometimes 27-30 connections, same ids live on all of them); '
+             'names in order of first appearance, exactly one New/Closed notice, role, `connection` listing, per-connection C02/C03 oracles, and equality of each connection\'s projected view with a solo replay of that connection in a fresh tool instance. '
+             'Workload B drives open/message/close/re-open sequences on the connection-id sink with real parsed messages.',
+        note='Trusted: as C02; role judged absolutely only when the first message is get_registry; Closed notices unordered.',
+        technique=TECH + '; seeded interleavings'),
 }
 
 NOT_APPLICABLE = [
